@@ -20,7 +20,7 @@ UpgFew  == {<<>>, << <<"websocket">> >>, << <<"h2c", "WebSocket">> >>, << <<"h2c
 Methods == {"GET", "POST", "HEAD", "get"}
 Protos  == {"1.0", "1.1", "2.0"}
 Versions == {"13", "8", "", "missing"}
-Keys == {"ok16", "ok16spaces", "short", "long", "nonb64", "missing", "twoLines", "empty", "commaJoined"}
+Keys == {"ok16", "ok16spaces", "short", "long", "nonb64", "missing", "twoLines", "empty", "commaJoined", "dec14", "dec15", "dec17", "dec18", "ok16nopad", "ok16urlsafe"}
 SubTok == {"a", "b", "A"}
 SubLists == {<<>>} \cup Seq12(SubTok)
 C11Product == { [Base EXCEPT !.method = m, !.proto = p, !.conn = c, !.upg = u, !.version = v, !.key = k] :
@@ -39,7 +39,7 @@ Hosts == { <<"a",".","c">>, <<"A",".","c">>, <<"b",".","a",".","c">>, <<"b","a",
 Origins ==
   {[form |-> "none"]} \cup
   [form : {"url"}, scheme : {"http", "https", "chrome-extension"}, userinfo : {"", "user", "REQHOST"},
-   host : Hosts, port : {"", "8080"}, tail : {"", "/", "/p/REQHOST", "?q=REQHOST", "#REQHOST"}] \cup
+   host : Hosts, port : {"", "8080"}, tail : {"", "/", "/p/REQHOST", "?q=REQHOST", "#REQHOST", "?@REQHOST", "#@REQHOST", "/@REQHOST", "?x=1#@REQHOST"}] \cup
   [form : {"schemeless", "opaque"}, host : Hosts] \cup {[form |-> "null"]}
 Patterns == { <<>>, << <<"a",".","c">> >>, << <<"*",".","a",".","c">> >>, << <<"*","a",".","c">> >>, << <<"b",".","c">> >>,
               << <<"*">> >>, << <<"*",".","c">> >>, << <<"?",".","c">> >>, << <<"[">> >>, << <<"*",".","a",".","c">>, <<"b",".","c">> >>,
